@@ -1015,7 +1015,7 @@ class FnTranslator:
             p2, b = self.expr(node.orelse, env)
             if a[2] != b[2]:
                 self.fail(node, "conditional expression with branches of different shapes")
-            if not p1 and not p2:
+            if not p1 and not p2 and a[2] == B:
                 return pc, ("pure", f"(if {c} then {a[1]} else {b[1]})", a[2])
             t = self.tmp()
             blk = ("if", c, self.wrap_pre(p1, ("pure", a[1])), self.wrap_pre(p2, ("pure", b[1])))
@@ -1166,8 +1166,10 @@ class FnTranslator:
                     self.fail(node, f"`{f}` of an iterable")
                 acc = self.as_num(node.args[0], vals[0])
                 for a_node, v in zip(node.args[1:], vals[1:]):
-                    acc = f"(Num.{f} {acc} {self.as_num(a_node, v)})"
-                return pre, ("pure", acc, N)
+                    t = self.tmp()
+                    pre.append(("let", t, f"Num.{f} {acc} {self.as_num(a_node, v)}", None))
+                    acc = t
+                return pre, ("atom", acc, N)
             if f == "len":
                 pre, (a,) = self.args_of(node, env, 1)
                 if a[2][0] != "L":
